@@ -132,7 +132,7 @@ var (
 	// two made-up keys and three real cgroup v2 files that are the unified spelling of typed
 	// fields (pids limit, memory limit, CPU shares): a typed field and its unified twin are
 	// two different items
-	unifiedKeys = []string{"u.a", "u.b", "pids.max", "memory.max", "cpu.weight"}
+	unifiedKeys = []string{"u.a", "-u.a", "pids.max", "memory.max", "cpu.weight"} // "-u.a": unified keys have no removal markers, a dash is part of the name
 	hookKeys    = []string{"prestart", "createRuntime", "createContainer", "startContainer", "poststart", "poststop"}
 	scalarFams  = []string{"memLimit", "memReservation", "memSwap", "memKernel", "memKernelTcp", "memSwappiness",
 		"memDisableOom", "memUseHierarchy", "cpuShares", "cpuQuota", "cpuPeriod", "cpuRtRuntime", "cpuRtPeriod",
@@ -279,6 +279,8 @@ func genValOf(t *rapid.T) string {
 		return "zero" // the zero / empty value (an empty class name, 0, false, "")
 	case 6:
 		return "rt~" // the runtime's mount / device with one option / the file mode changed
+	case 7:
+		return "unl" // -1, "unlimited", in the signed resource fields
 	}
 	return ""
 }
@@ -402,7 +404,7 @@ func GenCase(t *rapid.T, b Bias) Case {
 	if len(c.Chain) >= 2 && rapid.IntRange(0, 99).Draw(t, "nearmiss") < b.NearMiss {
 		forceNearMiss(t, &c)
 	}
-	if c.Kind == "create" && gen.Uniform(t, "bulk", 8) == 0 {
+	if c.Kind == "create" && gen.Uniform(t, "bulk", 6) == 0 {
 		forceBulk(t, &c)
 	}
 	if c.Kind == "update" && b.IgnoreFlags > 0 && gen.Uniform(t, "selfdupstory", 8) == 0 {
@@ -462,6 +464,27 @@ func forceBulk(t *rapid.T, c *Case) {
 		c.Chain[i].Ops = append(c.Chain[i].Ops, Op{Fam: fam, Key: bulkKey(fam, k), Act: "set"})
 	}
 	if !has(removableFams, fam) {
+		return
+	}
+	if i+1 < len(c.Chain) && gen.Uniform(t, "bcollide", 2) == 0 {
+		// a later plugin lone-removes one of the first eight keys and then (itself, or a still
+		// later plugin) plainly sets one of the later keys, which the bulk plugin still owns:
+		// a conflict
+		j := i + 1 + gen.Uniform(t, "bcj", len(c.Chain)-1-i)
+		lo := gen.Uniform(t, "bclo", 8)
+		hi := 8 + gen.Uniform(t, "bchi", n-8)
+		// (in front of the plugin's other operations, so that nothing of this family is claimed
+		// between the release and the colliding set)
+		c.Chain[j].Ops = append([]Op{{Fam: fam, Key: bulkKey(fam, lo), Act: "del"}}, c.Chain[j].Ops...)
+		k := j
+		if fam == "ann" || gen.Uniform(t, "bcsame", 2) == 0 {
+			if j+1 < len(c.Chain) {
+				k = j + 1 + gen.Uniform(t, "bck", len(c.Chain)-1-j)
+			}
+		}
+		if hasOp(&c.Chain[k], fam, bulkKey(fam, hi)) < 0 {
+			c.Chain[k].Ops = append([]Op{{Fam: fam, Key: bulkKey(fam, hi), Act: "set"}}, c.Chain[k].Ops...)
+		}
 		return
 	}
 	owned := map[int]bool{}
@@ -671,11 +694,38 @@ func forceNearMiss(t *rapid.T, c *Case) {
 		}
 		s.Updates = append(s.Updates, Upd{Target: target, Fields: []string{field}})
 	}
-	mode := rapid.IntRange(0, 4).Draw(t, "nmode")
+	mode := rapid.IntRange(0, 5).Draw(t, "nmode")
 	if c.Kind != "create" && mode == 0 {
 		mode = 1
 	}
 	switch mode {
+	case 5: // two fields that belong together in the kernel's view, one plugin each, same target
+		pr := gen.Pick(t, "npair", [][2]string{{"memLimit", "memSwap"}, {"memLimit", "memReservation"}, {"cpuQuota", "cpuPeriod"},
+			{"cpuRtRuntime", "cpuRtPeriod"}, {"cpus", "mems"}, {"memLimit", "memKernel"}, {"blockio", "rdt"}})
+		if gen.Uniform(t, "npairswap", 2) == 0 {
+			a, b = b, a
+		}
+		vo := gen.Pick(t, "npairval", []string{"", "unl", "unl", "zero", "rt"})
+		if c.Kind == "create" && gen.Uniform(t, "npairadj", 2) == 0 {
+			if hasOp(a, pr[0], "") < 0 && hasOp(b, pr[1], "") < 0 && hasOp(a, pr[1], "") < 0 && hasOp(b, pr[0], "") < 0 {
+				a.Ops = append(a.Ops, Op{Fam: pr[0], Act: "set", ValOf: vo})
+				b.Ops = append(b.Ops, Op{Fam: pr[1], Act: "set"})
+			}
+			return
+		}
+		tg := append([]string{}, targets...)
+		if c.Kind != "create" {
+			tg = append(tg, "SELF", "SELF", "SELF")
+		}
+		target := gen.Pick(t, "npairtarget", tg)
+		if plugHasField(a, target, pr[0]) || plugHasField(b, target, pr[1]) || plugHasField(a, target, pr[1]) || plugHasField(b, target, pr[0]) {
+			return
+		}
+		a.Updates = append(a.Updates, Upd{Target: target, Fields: []string{pr[0]}, ValOf: vo})
+		b.Updates = append(b.Updates, Upd{Target: target, Fields: []string{pr[1]}})
+		if c.Kind == "update" && target == "SELF" && !has(c.Req, pr[1]) && gen.Uniform(t, "npairreq", 2) == 0 {
+			c.Req = append(c.Req, pr[1]) // the runtime's own request carries the partner field
+		}
 	case 4: // a typed field and its unified twin, same target (or the created container): no conflict
 		tw := gen.Pick(t, "ntwin", [][2]string{{"pids", "pids.max"}, {"memLimit", "memory.max"}, {"cpuShares", "cpu.weight"}})
 		if gen.Uniform(t, "ntwinswap", 2) == 0 {
